@@ -54,6 +54,14 @@ var specs = []spec{
 	{pkg: "x/rewards/keeper", fn: "SplitTotalAmountPerEpoch", lean: "splitTotalAmountPerEpoch"},
 	{pkg: "x/liquidationsV2/types", fn: "GetSliceStartEndForLiquidations", lean: "sliceStartEndV2"},
 	{pkg: "x/liquidation/types", fn: "GetSliceStartEndForLiquidations", lean: "sliceStartEndV1"},
+	{pkg: "x/auction/keeper", fn: "Multiply", lean: "auctionMultiply"},
+	{pkg: "x/auction/keeper", recv: "Keeper", fn: "getOutflowTokenInitialPrice", lean: "auctionInitialPrice"},
+	{pkg: "x/auction/keeper", recv: "Keeper", fn: "getOutflowTokenEndPrice", lean: "auctionEndPrice"},
+	{pkg: "x/auction/keeper", recv: "Keeper", fn: "getPriceFromLinearDecreaseFunction", lean: "auctionLinearPrice"},
+	{pkg: "x/auctionsV2/keeper", fn: "Multiply", lean: "auctionsV2Multiply"},
+	{pkg: "x/auctionsV2/keeper", recv: "Keeper", fn: "GetCollalteralTokenInitialPrice", lean: "auctionsV2InitialPrice"},
+	{pkg: "x/auctionsV2/keeper", recv: "Keeper", fn: "GetCollateralTokenEndPrice", lean: "auctionsV2EndPrice"},
+	{pkg: "x/auctionsV2/keeper", recv: "Keeper", fn: "GetPriceFromLinearDecreaseFunction", lean: "auctionsV2LinearPrice"},
 }
 
 // ---- Go primitive -> GoSem definition ----------------------------------------------------------------------------
